@@ -130,7 +130,7 @@ Proof. destruct o; simpl; intro H; try discriminate; reflexivity. Qed.
 
 Lemma entrypoints_partial : forall e k d fitted skip,
   In e c11_traces -> applicable e k = true -> corrupted k d -> state_ok e fitted = true ->
-  excepted e k (d_cont d) fitted = false ->
+  excepted e k (d_cont d) (d_dt d) fitted = false ->
   run_trace (e_actions e) d fitted skip = RaisedVE.
 Proof.
   intros e k d fitted skip He Ha Hc Hs Hx.
@@ -138,14 +138,14 @@ Proof.
   rewrite Ha, (corrupted_abstract k d Hc), Hs in C. simpl in C.
   unfold run_trace. destruct (outcome_is_ve (run_atrace (e_actions e) (abstract d) fitted skip)) eqn:E.
   - apply outcome_is_ve_eq; exact E.
-  - change (a_cont (abstract d)) with (d_cont d) in C. rewrite Hx in C. discriminate.
+  - change (a_cont (abstract d)) with (d_cont d) in C. change (a_dt (abstract d)) with (d_dt d) in C. rewrite Hx in C. discriminate.
 Qed.
 
 (* the hypotheses are satisfiable: GAM.fit, weights, -Inf in the middle of a list, unfitted model *)
 Definition ex_desc := mk_desc CList DFloat [Fin; NInf; Fin] true true true true.
 Example entrypoints_partial_example : exists e,
   In e c11_traces /\ e_cls e = "GAM"%string /\ e_meth e = "fit"%string /\ e_arg e = AW /\ applicable e KNonFinite = true /\
-  corrupted KNonFinite ex_desc /\ state_ok e false = true /\ excepted e KNonFinite (d_cont ex_desc) false = false /\
+  corrupted KNonFinite ex_desc /\ state_ok e false = true /\ excepted e KNonFinite (d_cont ex_desc) (d_dt ex_desc) false = false /\
   run_trace (e_actions e) ex_desc false false = RaisedVE.
 Proof.
   destruct (find_entry "GAM" "fit" AW) as [e|] eqn:F; [|vm_compute in F; discriminate].
@@ -193,7 +193,7 @@ Proof. apply (refuting_sound "LogisticGAM" "accuracy" AX KLen len_desc true fals
 (* every listed exception is a genuine failure of the extracted traces (the list is tight) *)
 Lemma exceptions_genuine_sound : forall tr, exceptions_genuine tr = true -> forall x, In x exceptions ->
   exists e a s, In e tr /\ exc_entry_matches x e = true /\ applicable e (x_kind x) = true /\
-    state_ok e (x_fitted x) = true /\ a_corrupted (x_kind x) a = true /\ opt_match cont_eqb (x_cont x) (a_cont a) = true /\
+    state_ok e (x_fitted x) = true /\ a_corrupted (x_kind x) a = true /\ (opt_match cont_eqb (x_cont x) (a_cont a) && opt_match dkind_eqb (x_dt x) (a_dt a)) = true /\
     run_atrace (e_actions e) a (x_fitted x) s <> RaisedVE.
 Proof.
   intros tr G x Hx. unfold exceptions_genuine in G.
@@ -201,7 +201,7 @@ Proof.
   apply existsb_exists in G. destruct G as [e [He G]].
   destruct (exc_entry_matches x e && applicable e (x_kind x) && state_ok e (x_fitted x)) eqn:E1; [|discriminate].
   apply existsb_exists in G. destruct G as [a [_ G]].
-  destruct (a_corrupted (x_kind x) a && opt_match cont_eqb (x_cont x) (a_cont a)) eqn:E2; [|discriminate].
+  destruct (a_corrupted (x_kind x) a && (opt_match cont_eqb (x_cont x) (a_cont a) && opt_match dkind_eqb (x_dt x) (a_dt a))) eqn:E2; [|discriminate].
   apply existsb_exists in G. destruct G as [s [_ G]].
   apply andb_true_iff in E1. destruct E1 as [E1 St]. apply andb_true_iff in E1. destruct E1 as [M Ap].
   apply andb_true_iff in E2. destruct E2 as [Co Ct].
@@ -211,7 +211,7 @@ Qed.
 
 Lemma exceptions_genuine_all : forall x, In x exceptions ->
   exists e a s, In e c11_traces /\ exc_entry_matches x e = true /\ applicable e (x_kind x) = true /\
-    state_ok e (x_fitted x) = true /\ a_corrupted (x_kind x) a = true /\ opt_match cont_eqb (x_cont x) (a_cont a) = true /\
+    state_ok e (x_fitted x) = true /\ a_corrupted (x_kind x) a = true /\ (opt_match cont_eqb (x_cont x) (a_cont a) && opt_match dkind_eqb (x_dt x) (a_dt a)) = true /\
     run_atrace (e_actions e) a (x_fitted x) s <> RaisedVE.
 Proof. exact (exceptions_genuine_sound c11_traces exceptions_genuine_today). Qed.
 
